@@ -18,9 +18,8 @@ CONSTANTS NWS,        \* set of numbers of Wannier functions
           OnReducedR  \* FALSE: the code; TRUE: sensitivity run (K-shift phase on R mod NKFFT), FFTEqualsDirect must fail
 
 VARIABLES nw, latid, tauid, hops, fft, dk, phase,
-          direct,   \* cs -> rows of the explicit sum at kpoints_all (times DD^Len(cs))
-          fftp      \* cs -> rows of the FFT path
-vars == <<nw, latid, tauid, hops, fft, dk, phase, direct, fftp>>
+          direct    \* cs -> rows of the explicit sum at kpoints_all (times DD^Len(cs)); the function table replayed on the code
+vars == <<nw, latid, tauid, hops, fft, dk, phase, direct>>
 
 DD == 4   \* centres in quarters
 LatOf(id) == CASE id = 1 -> << <<1, 0, 0>>, <<0, 1, 0>>, <<0, 0, 1>> >>      \* cubic
@@ -57,11 +56,10 @@ Init == /\ nw \in NWS /\ latid \in LATIDS /\ tauid \in TAUIDS
         /\ \E k \in 1..MAXHOPS : \E hh \in kSubset(k, IndependentHops(nw)) :
               hops = IF Symmetrise THEN HermitianClosure(hh) ELSE hh
         /\ fft \in {FFTOf(x) : x \in FFTS} /\ dk \in {DKOf(x) : x \in DKS}
-        /\ phase = "new" /\ direct = <<>> /\ fftp = <<>>
-(* one call of Data_K_R.HH_K / Xbar('Ham', der) for every derivative component, by both routes *)
+        /\ phase = "new" /\ direct = <<>>
+(* the explicit sums for every derivative component *)
 Eval == /\ phase = "new" /\ phase' = "done"
         /\ direct' = [cs \in CompSeqsUpTo(MAXDER) |-> DirectRows(Model, fft, dk, cs)]
-        /\ fftp' = [cs \in CompSeqsUpTo(MAXDER) |-> FFTPath(Model, fft, dk, cs, OnReducedR)]
         /\ UNCHANGED <<nw, latid, tauid, hops, fft, dk>>
 Next == Eval
 Spec == Init /\ [][Next]_vars
@@ -69,10 +67,11 @@ Spec == Init /\ [][Next]_vars
 Done == phase = "done"
 (* C02 *)
 ModelHermitian  == Done /\ Symmetrise => IsHermitianModel(Model)
-HkHermitian     == Done => RowsHermitian(direct[<<>>]) /\ RowsHermitian(fftp[<<>>])
-DerHermitian    == Done => \A cs \in CompSeqsUpTo(MAXDER) : RowsHermitian(direct[cs]) /\ RowsHermitian(fftp[cs])
-FFTEqualsDirect == Done => fftp = direct
-HermSymNoopHHK  == Done => HermSymNoop(fftp[<<>>])
+HkHermitian     == Done => RowsHermitian(direct[<<>>])
+DerHermitian    == Done => \A cs \in CompSeqsUpTo(MAXDER) : RowsHermitian(direct[cs])
+(* every FFT back end (placement modulo NKFFT, K-shift phase, inverse transform, reshape) gives the explicit sum at kpoints_all *)
+FFTEqualsDirect == Done => \A cs \in CompSeqsUpTo(MAXDER) : FFTPath(Model, fft, dk, cs, OnReducedR) = direct[cs]
+HermSymNoopHHK  == Done => HermSymNoop(direct[<<>>])
 Periodic        == Done => PeriodicAt(Model, KpointsAll(fft, dk)[1], <<>>)
 (* non-vacuity witness, counted by the harness from the dump *)
 HasAlias == Aliases(Model, fft)
